@@ -236,6 +236,40 @@ func runC17(r *Run) {
 			r.Check(okCopy, "R3", fmt.Sprintf("%s#equal-branch-%d", fnID(cb), i+1), P.Pos(instrPos(ri.ret)), "unchanged copy of the parent base fee", "the g = T branch does not return an unchanged copy of the parent base fee")
 		}
 	}
+	// the unchanged copy is returned only where used == target
+	{
+		var eqEdges []Edge
+		for _, b := range cb.Blocks {
+			ifi, ok := lastIf(b)
+			if !ok {
+				continue
+			}
+			bo, ok := ifi.Cond.(*ssa.BinOp)
+			if !ok || (bo.Op != token.EQL && bo.Op != token.NEQ) {
+				continue
+			}
+			l, rr := backSlice(bo.X), backSlice(bo.Y)
+			used := func(s *Slice) bool { return s.HasCall(func(g CallInfo) bool { return g.Name == "GetBlockGasWanted" }) }
+			tgt := func(s *Slice) bool { return s.HasField("Params", "ElasticityMultiplier") }
+			if (used(l) && tgt(rr)) || (used(rr) && tgt(l)) {
+				if bo.Op == token.EQL {
+					eqEdges = append(eqEdges, Edge{b, 0})
+				} else {
+					eqEdges = append(eqEdges, Edge{b, 1})
+				}
+			}
+		}
+		for i, ri := range rets {
+			c, isC := ri.v.(*ssa.Call)
+			if !isC || callInfo(c).Name != "Set" {
+				continue
+			}
+			isThis := func(in ssa.Instruction) bool { return in == ssa.Instruction(ri.ret) }
+			w := PathQuery{Fn: cb, Target: isThis, DelEdge: edgeSet(eqEdges)}.Search()
+			r.Check(len(eqEdges) > 0 && w == nil, "R3", fmt.Sprintf("%s#copy-only-at-target-%d", fnID(cb), i+1), P.Pos(instrPos(ri.ret)), "the unchanged copy of the parent base fee is returned only where used == target",
+				"the parent base fee is returned unchanged on a path on which the gas figure differs from the target (an early return around the adjustment): there the floor max(…, MinGasPrice) / the minimum step is skipped, so the base fee can stay below the configured minimum gas price", P.witness(w)...)
+		}
+	}
 	r.Check(nAdj == 2, "R3", fnID(cb)+"#two-adjusting-branches", P.Pos(fnPos(cb)), "one increasing and one decreasing branch", fmt.Sprintf("expected exactly one Add(...) and one BigMax(...) result, found %d adjusting results", nAdj))
 	// the three-way comparison on gas used vs target
 	nCmp := 0
@@ -326,6 +360,44 @@ func runC17(r *Run) {
 			um, tm := subOrder(ri.s)
 			r.Check(w == nil && len(lessPossible) > 0 && tm && !um, "R3", fmt.Sprintf("%s#decrease-only-below-target-%d", fnID(cb), i+1), P.Pos(instrPos(ri.ret)), "the decreasing result is returned only where used < target is possible; delta = target − used",
 				fmt.Sprintf("the decreasing result is reachable where the gas figure is not below the target, or its delta is not target − used (target−used: %v, used−target: %v)", tm, um), P.witness(w)...)
+		}
+	}
+
+	// ---------- R6: one activation boundary ----------
+	r.Rule("R6", "TABLE.activation-boundary (sibling agreement): the two predicates that decide whether the fee market is active at a height — (Keeper).GetBaseFeeEnabled, which gates the recording of declared gas in the ante handler, and (Params).IsBaseFeeEnabled, which gates CalculateBaseFee — compare the height with EnableHeight in the same class (height >= EnableHeight ⇔ active): the block at EnableHeight is treated alike by both")
+	{
+		classOf := func(fn *ssa.Function) string {
+			cls := ""
+			eachInstr(fn, func(in ssa.Instruction) {
+				bo, ok := in.(*ssa.BinOp)
+				if !ok {
+					return
+				}
+				x, y, op := bo.X, bo.Y, bo.Op
+				isEH := func(v ssa.Value) bool { return backSlice(v).HasField("Params", "EnableHeight") }
+				if isEH(x) && !isEH(y) {
+					x, y, op = y, x, flipCmp(op)
+				}
+				if !isEH(y) || isEH(x) {
+					return
+				}
+				switch op {
+				case token.GEQ, token.LSS:
+					cls += "[>=]"
+				case token.GTR, token.LEQ:
+					cls += "[>]"
+				}
+			})
+			return cls
+		}
+		gk, ok1 := P.FnOK("(" + fk + ".Keeper).GetBaseFeeEnabled")
+		gp, ok2 := P.FnOK("(*x/feemarket/types.Params).IsBaseFeeEnabled")
+		if !ok1 || !ok2 {
+			r.Bad("R6", "anchor/base-fee-enabled predicates", "", "GetBaseFeeEnabled / IsBaseFeeEnabled not found")
+		} else {
+			a, b := classOf(gk), classOf(gp)
+			r.Check(a == "[>=]" && b == "[>=]", "R6", "x/feemarket#activation-boundary", P.Pos(fnPos(gk)), "both predicates: active ⇔ height >= EnableHeight",
+				fmt.Sprintf("the two activation predicates disagree or changed class (GetBaseFeeEnabled: %q, IsBaseFeeEnabled: %q; expected height >= EnableHeight in both): in the block at EnableHeight the base fee is computed but the declared gas is not recorded (or vice versa), so the next base fee is computed from gas used alone", a, b))
 		}
 	}
 
